@@ -60,7 +60,7 @@ func init() {
 		},
 		Cases: func(tier string, seed uint64) int {
 			if tier == "thorough" {
-				return 60000
+				return 400000
 			}
 			return 2400
 		},
